@@ -11,7 +11,7 @@ PROP = "C16"
 USE_CACHE = ["omitted", "true", "false"]
 STRUCT = ["omitted", "true", "false"]
 EXTS = ["omitted", "rs", "rs+x", "x"]
-LOCK = ["absent", "valid_ahead", "corrupt", "empty"]
+LOCK = ["absent", "valid_ahead", "corrupt", "empty", "out_of_range", "negative", "float"]
 MODE = ["check", "edit"]
 TREE = ["missing", "none_missing"]
 LOCKVAL = 1000
@@ -29,7 +29,11 @@ FILES_NONE = {
     "src/readme.md": b'info!("not source");\n',
 }
 LOCK_TEXT = {"absent": None, "valid_ahead": core.lock_text(LOCKVAL), "corrupt": "next_reference_id: [not, a, number\n# torn",
-             "empty": ""}
+             "empty": "",
+             # numbers that are not a u32: the lock cannot be parsed and must be ignored
+             "out_of_range": core.LOCK_HEADER + "next_reference_id: 4294967303\n",
+             "negative": core.LOCK_HEADER + "next_reference_id: -3\n",
+             "float": core.LOCK_HEADER + "next_reference_id: 12.5\n"}
 
 
 def expected(p):
@@ -227,7 +231,7 @@ def main(tier):
     ck.extra["product_points"] = len(points)
     ck.extra["error_points"] = len(ERRORS) * 2
     ck.rule = ("full product use_cache{omitted,true,false} x structured{omitted,true,false} x extensions{omitted,[rs],[rs,x],[x]} x "
-               "lock{absent,valid-ahead,corrupt,empty} x mode x tree{missing,none missing} = %d points (exhaustive:true refers to this "
+               "lock{absent,valid-ahead,corrupt,empty,out-of-range,negative,float} x mode x tree{missing,none missing} = %d points (exhaustive:true refers to this "
                "product) + %d error exits; observables: exit status, snapshot diff, lock before/after, whether the lock file was "
                "opened (shim), IDs chosen, token style; distinct_nontrivial = distinct points executed" % (len(points), len(ERRORS) * 2))
     ck.assumptions = ["expectation table derived from docs/source/configuration.rst and the property text",
